@@ -1,4 +1,4 @@
 Require Extraction.
 Require Import ExtrOcamlBasic.
 From Phil Require Import Base Tree Vars Choice Fetch EntryFetch.
-Extraction "Fetch.ml" run_fetch.
+Extraction "Fetch.ml" run_fetch run_fetchok.
